@@ -15,7 +15,7 @@ R5 flag provenance           : AuthenticatorData::set_flags receives exactly the
 R6 waived presence           : make_credential with up=false returns Err before any effect; the client always sends up=true
                                and uv = (userVerification ≠ discouraged).
 """
-from . import core, flow, names, summary
+from . import core, flow, names, normal, summary
 from .framework import where, short, api_name
 from .common import AUTH, CLIENT, ceremony, find_aggs, upvar_names, is_upvar_field, term_fields
 
@@ -75,6 +75,7 @@ def run(chk):
     chk.configs = ["all-features"]
     chk.explanation = __doc__
     S = summary.Summaries(p)
+    N = normal.Normalizer(p, S)
     mc = ceremony(p, "make_credential")
     ga = ceremony(p, "get_assertion")
     if not chk.require("R1 consent dominates effects", "R1|ceremonies", mc is not None and ga is not None, AUTH, "ceremony bodies not found"):
@@ -253,40 +254,58 @@ def run(chk):
         signs = names.calls_to(ga, "SignerMut::sign", "Signer::sign")
         chk.require("R3 shown = used", "R3|sign", len(signs) == 1, where(ga), "expected one signature site")
         lookups = [x for x in flow.awaits(ga) if x.call is not None and names.call_is(x.call, "CredentialStore::find_credentials")]
+        look = lambda x: is_await(x, "CredentialStore::find_credentials")
+        is_helper = lambda x: isinstance(x, tuple) and len(x) == 4 and x[0] == "await" and x[1] == tb.path
+
+        def consumers(term):
+            """sub-terms that take the lookup's list directly (through iterator plumbing): the element selection"""
+            out = set()
+            for x in subterms(term):
+                if isinstance(x, tuple) and len(x) == 4 and x[0] in ("call", "await") and isinstance(x[2], tuple) and not is_helper(x):
+                    for arg in x[2]:
+                        b = arg
+                        while isinstance(b, tuple) and len(b) == 4 and b[0] == "call" and b[2] and (names.is_(b[1], "IntoIterator::into_iter") or b[1].endswith("::iter") or b[1].endswith("::into_iter")):
+                            b = b[2][0]
+                        if flow.is_payload_of(b, look):
+                            out.add(x)
+            return out
         if signs and lookups and shown is not None:
             sb, stt = signs[0]
-            key = flow.simplify_term(T.operand(stt["args"][0], sb, "t"))
-            look = lambda x: is_await(x, "CredentialStore::find_credentials")
-            # the common selected element: the combinator applied directly to the lookup result
-            sel_shown = find_sub(shown, lambda x: isinstance(x, tuple) and x and x[0] == "call" and x[2] and look(x[2][0]))
-            sel_key = find_sub(key, lambda x: isinstance(x, tuple) and x and x[0] == "call" and x[2] and look(x[2][0]))
-            ok = sel_shown is not None and sel_shown == sel_key
+            key_n = N.inline(T.operand(stt["args"][0], sb, "t"))
+            shown_n = N.inline(shown)
+            cs, ck = consumers(shown_n), consumers(key_n)
+            ok = bool(cs) and cs == ck
             chk.ob("R3 shown = used", "R3|get_assertion|same-credential", ok, where(ga, sb),
-                   "shown to the user: %s ; signing key from: %s" % (flow.term_str(shown), flow.term_str(key)[:260]))
-        # R4
-        Sg = summary.Summaries(p)
-        outs = Sg.local_outcomes(ga)
-        look = lambda x: is_await(x, "CredentialStore::find_credentials")
-        consent = lambda t, labs: t[0] == "discr" and t[1][0] == "try" and find_sub(t, lambda x: x[0] == "await" and x[1] == tb.path if isinstance(x, tuple) and len(x) == 4 else False) is not None and labs == ("in", "0")
+                   "element of the lookup result shown to the user: %s ; element the signing key comes from: %s" % (sorted(flow.term_str(x)[:90] for x in cs), sorted(flow.term_str(x)[:90] for x in ck)))
+        # R4: an outcome that is not behind the consent success edge must neither be control dependent on the lookup
+        # result nor carry it.  (Control dependence = necessary branch conditions: a `match` on the lookup result whose
+        # arms re-join before the outcome does not make the outcome depend on it.)
+        ok_edges, _bad = flow.success_edges(p, ga, is_helper, T)
         leaks = []
         n_pre = 0
-        for o in outs:
-            if any(consent(t, labs) for t, labs, fn, w in o.conds):
+        for s in flow.outcome_sites(ga):
+            if s["path"] != ():
+                continue
+            bb = s["bb"]
+            if ok_edges and flow.cut_by_edges(ga, 0, [bb], ok_edges):
                 continue
             n_pre += 1
-            for t, labs, fn, w in o.conds:
-                # the lookup's own poll loop is plumbing (Ready discriminant), not a decision on its value
-                if t[0] == "discr" and t[1][0] == "agg" and t[1][2] == "Ready":
+            for sb2, labs, t in (normal.conditions(N, p, ga, bb, T) or []):
+                if t[0] == "discr" and isinstance(t[1], tuple) and t[1] and t[1][0] == "agg" and t[1][2] == "Ready":
                     continue
-                if find_sub(t, look) is not None and not (find_sub(t, lambda x: isinstance(x, tuple) and len(x) == 4 and x[0] == "await" and x[1] == tb.path) is not None):
-                    leaks.append("branch on %s at %s leads to %s" % (flow.term_str(t)[:120], w, o.vstr()))
-            if find_sub(summary.replace_where(o.value, lambda x: isinstance(x, tuple) and len(x) == 4 and x[0] == "await" and x[1] == tb.path, ("consent-helper",)), look) is not None:
-                leaks.append("value %s returned before consent" % flow.term_str(o.value)[:160])
-        chk.ob("R4 nothing disclosed before consent", "R4|get_assertion|pre-consent-outcomes", not leaks and n_pre >= 2, where(ga),
-               leaks[0] if leaks else "%d outcomes without consent success; none branches on or returns the lookup result" % n_pre)
+                if find_sub(t, look) is not None and find_sub(t, is_helper) is None:
+                    leaks.append("outcome at %s is control dependent on %s" % (where(ga, bb), flow.term_str(t)[:120]))
+            if s.get("idx") is not None:
+                val = N.norm(T._rvalue(s["rv"], bb, s["idx"], 0))
+            else:
+                val = N.norm(T._call(s["term"], bb, 0))
+            if find_sub(summary.replace_where(val, is_helper, ("consent-helper",)), look) is not None:
+                leaks.append("value %s returned before consent at %s" % (flow.term_str(val)[:160], where(ga, bb)))
+        chk.ob("R4 nothing disclosed before consent", "R4|get_assertion|pre-consent-outcomes", bool(ok_edges) and not leaks and n_pre >= 2, where(ga),
+               leaks[0] if leaks else "%d outcome sites are not behind the consent success edge; none is control dependent on or returns the lookup result" % n_pre)
         # the only pre-consent use of the lookup result is as the display argument
         chk.ob("R4 nothing disclosed before consent", "R4|get_assertion|lookup-only-shown", shown is not None and find_sub(shown, look) is not None, where(ga, a.call_bb),
-               "consent helper receives %s" % (flow.term_str(shown) if shown else "?"))
+               "consent helper receives %s" % (flow.term_str(shown)[:300] if shown else "?"))
 
     # ---------------- R6
     T = flow.Terms(p, mc)
